@@ -313,7 +313,23 @@ class Inliner(object):
         callee_uses = sum(1 for n in ast.walk(fn) if isinstance(n, ast.Call) and isinstance(n.func, ast.Name) and n.func.id == s.name)
         all_uses = sum(1 for n in ast.walk(fn) if isinstance(n, ast.Name) and n.id == s.name)
         if callee_uses == all_uses and callee_uses: closures[s.name] = s
+    # a local lambda bound once to a new name and only ever called is a closure helper too
+    lam_defs = {}
+    if qual in self.inv:
+      for s_ in fn.body:
+        if isinstance(s_, ast.Assign) and len(s_.targets) == 1 and isinstance(s_.targets[0], ast.Name) and isinstance(s_.value, ast.Lambda) and s_.targets[0].id not in known_locals:
+          nm_ = s_.targets[0].id
+          stores_ = sum(1 for n in ast.walk(fn) if isinstance(n, ast.Name) and n.id == nm_ and isinstance(n.ctx, ast.Store))
+          calls_ = sum(1 for n in ast.walk(fn) if isinstance(n, ast.Call) and isinstance(n.func, ast.Name) and n.func.id == nm_)
+          loads_ = sum(1 for n in ast.walk(fn) if isinstance(n, ast.Name) and n.id == nm_ and isinstance(n.ctx, ast.Load))
+          a_ = s_.value.args
+          if stores_ == 1 and calls_ == loads_ and calls_ and not a_.vararg and not a_.kwarg:
+            fd = ast.FunctionDef(name=nm_, args=a_, body=[ast.copy_location(ast.Return(value=s_.value.body), s_)], decorator_list=[], returns=None, type_comment=None, type_params=[])
+            ast.copy_location(fd, s_); ast.fix_missing_locations(fd)
+            closures[nm_] = fd; lam_defs[nm_] = s_
     self.expr_inline(fn, cls, closures)
+    for nm_, s_ in lam_defs.items():
+      if not any(isinstance(n, ast.Name) and n.id == nm_ and isinstance(n.ctx, ast.Load) for n in ast.walk(fn)) and s_ in fn.body: fn.body.remove(s_)
     if depth == 0:
       self.cur_known = set(self.inv.get(qual, ())); self.cur_taken = local_names(fn); self.cur_claimed = set()
     fn.body = self.block(fn.body, cls, qual, depth, closures)
@@ -413,6 +429,17 @@ class Inliner(object):
 
   def stmt (self, s, cls, qual, depth, closures):
     if depth > 3: return [s]
+    if isinstance(s, ast.Assign) and len(s.targets) == 1 and isinstance(s.targets[0], ast.Name) and isinstance(s.value, ast.BoolOp) \
+       and any(self._first_call(v, cls, closures) is not None for v in s.value.values[1:]) and s.targets[0].id not in [x.id for v in s.value.values for x in ast.walk(v) if isinstance(x, ast.Name)]:
+      # x = A and B and C   ==   x = A; if x: x = B; if x: x = C        (or: `if not x`)   - lets the helper call be hoisted
+      nm = s.targets[0].id; is_and = isinstance(s.value.op, ast.And)
+      out = self.stmt(ast.copy_location(ast.Assign(targets=[ast.Name(id=nm, ctx=ast.Store())], value=s.value.values[0], lineno=s.lineno), s), cls, qual, depth, closures)
+      for v in s.value.values[1:]:
+        test = ast.Name(id=nm, ctx=ast.Load()) if is_and else ast.UnaryOp(op=ast.Not(), operand=ast.Name(id=nm, ctx=ast.Load()))
+        inner = self.stmt(ast.copy_location(ast.Assign(targets=[ast.Name(id=nm, ctx=ast.Store())], value=v, lineno=s.lineno), s), cls, qual, depth, closures)
+        out.append(ast.copy_location(ast.If(test=test, body=inner, orelse=[]), s))
+      for o in out: ast.fix_missing_locations(o)
+      return out
     if isinstance(s, ast.If) and isinstance(s.test, ast.BoolOp) and isinstance(s.test.op, ast.And) and not s.orelse:
       # if A and B: X   ==   if A: if B: X      (lets a helper call in B be hoisted)
       later = s.test.values[1:]
@@ -641,6 +668,23 @@ def _adjacent (fn, known_locals):
   loads = {}
   for x in ast.walk(fn):
     if isinstance(x, ast.Name) and isinstance(x.ctx, ast.Load): loads[x.id] = loads.get(x.id, 0) + 1
+  # a name qualifies only if EVERY read of it sits in the statement right after an assignment to it (same block)
+  paired = {}
+  def scan (body):
+    for i, s in enumerate(body):
+      if not isinstance(s, SCOPES):
+        for f in ('body', 'orelse', 'finalbody'):
+          b = getattr(s, f, None)
+          if isinstance(b, list) and b and isinstance(b[0], ast.stmt): scan(b)
+        if isinstance(s, ast.Try):
+          for h in s.handlers: scan(h.body)
+      if isinstance(s, ast.Assign) and len(s.targets) == 1 and isinstance(s.targets[0], ast.Name) and i + 1 < len(body):
+        t = s.targets[0].id; u = body[i + 1]
+        if isinstance(u, (ast.Return, ast.Expr, ast.Assign, ast.AugAssign, ast.If, ast.Assert, ast.Raise)):
+          k = sum(1 for h in _header_exprs(u) for x in ast.walk(h) if isinstance(x, ast.Name) and x.id == t and isinstance(x.ctx, ast.Load))
+          paired[t] = paired.get(t, 0) + k
+  scan(fn.body)
+  foldable = set(t for t, k in paired.items() if k == loads.get(t, 0))
   def walk (body):
     nonlocal n
     i = 0
@@ -662,7 +706,7 @@ def _adjacent (fn, known_locals):
             # every other read of t must be such an adjacent read of another assignment: approximate by
             # requiring as many loads as assignments of t in the function
             ndefs = sum(1 for x in ast.walk(fn) if isinstance(x, ast.Name) and x.id == t and isinstance(x.ctx, ast.Store))
-            if loads.get(t, 0) <= ndefs and (_pure(s.value) or all(_pure_except(h, uses[0]) for h in hs)):
+            if t in foldable and loads.get(t, 0) <= ndefs and (_pure(s.value) or all(_pure_except(h, uses[0]) for h in hs)):
               _replace_name(u, [h for h in hs if any(x is uses[0] for x in ast.walk(h))][0], uses[0], s.value)
               del body[i]; n += 1
               continue
@@ -752,6 +796,13 @@ def expand_temps (fn, known_locals):
     e = ds.value
     strictly_pure = _pure(e)
     rnames, rheap = _reads(e)
+    robjs = set()
+    for x_ in ast.walk(e):
+      if isinstance(x_, ast.Call):
+        for a_ in x_.args:
+          if isinstance(a_, ast.Name): robjs.add(a_.id)
+      elif isinstance(x_, (ast.Subscript, ast.Attribute)) and isinstance(x_.value, ast.Name): robjs.add(x_.value.id)
+    robjs -= {'self', 'cls'}
     if nm in rnames: continue
     # uses
     uses = []
@@ -829,6 +880,10 @@ def expand_temps (fn, known_locals):
           if rheap:
             if any(_overlap(a, b) for a in sh for b in rheap): ok = False; break
             if _impure_call_in(hx): ok = False; break
+          # objects the expression looks into (len(x), x[i], x.attr): a method call on them, or handing them to an
+          # unknown call, may change what the expression sees
+          if robjs and _touches(hx, robjs): ok = False; break
+          if robjs and any(a.split('.')[0].split('[')[0] in robjs for a in sh): ok = False; break
         if not ok: continue
       else:
         # statements between def and use; plus whole bodies of loops entered after the def that contain the use
@@ -853,6 +908,18 @@ def expand_temps (fn, known_locals):
     total += replaced
   if total: _drop_dead(fn)
   return total + pre
+
+def _touches (exprs, names):
+  """does some call in exprs invoke a (non-pure) method on one of `names`, or pass one of them to a non-pure call?"""
+  for e in exprs:
+    for n in ast.walk(e):
+      if isinstance(n, ast.Call):
+        f = n.func
+        if isinstance(f, ast.Attribute) and isinstance(f.value, ast.Name) and f.value.id in names and f.attr not in PURE_METHODS and f.attr not in LOG_ANY_RECEIVER: return True
+        if _impure_call_in([n]):
+          for a in list(n.args) + [k.value for k in n.keywords]:
+            if isinstance(a, ast.Name) and a.id in names: return True
+  return False
 
 def _overlap (a, b): return a == b or a.startswith(b + '.') or b.startswith(a + '.') or a.startswith(b + '[') or b.startswith(a + '[')
 
